@@ -10,6 +10,7 @@ Proof scripts must touch objects only through the harness (h.attr, h.items, h.ne
 from __future__ import annotations
 
 from pyvc.values import unmodelled as _unmodelled  # noqa: E402
+import os
 import fractions
 import importlib
 
@@ -218,6 +219,9 @@ class Harness:
         return Instance(cls, dict(attrs))
 
     def _outcome_exc(self, e):
+        if os.environ.get("PYVC_TRACE_EXC"):
+            import sys as _sys
+            print("  [interpreted exception]", _exc_names(e.value)[:1], getattr(e.value, "attrs", {}).get("args"), file=_sys.stderr)
         return Outcome(exc=e.value, exc_names=_exc_names(e.value))
 
     def call(self, fn, *args, **kwargs) -> Outcome:
